@@ -344,7 +344,9 @@ def validate(work, files, module, props, constants=None, timeout=1800, maxviol=4
                       java_opts="-XX:+UseParallelGC -XX:ParallelGCThreads=2")
         res = parse_result(out)
         if res is None or "No error has been found" not in out:
-            raise Inconclusive("trace validation failed (chunk %d, rc %d):\n%s" % (k, rc, out[-2500:]))
+            i = out.find("Error:")
+            head = out[i:i + 900] if i >= 0 else ""
+            raise Inconclusive("trace validation failed (chunk %d, rc %d):\n%s\n...\n%s" % (k, rc, head, out[-700:]))
         return k, res, time.time() - t0
 
     t0 = time.time()
